@@ -78,6 +78,13 @@ macro_rules! read3_normal {
         let mut out: Vec<(MV, MV)> = vec![];
         for e in t.iter().map_err(|e| format!("{e:?}"))? {
             let (k, v) = e.map_err(|e| format!("redb 3.0.0 read error in {:?}: {e:?}", $name))?;
+            // a point lookup has to route through the branch pages (iteration does not compare
+            // routing keys): the old release must be able to use the separators this tree wrote
+            match t.get(k.value()).map_err(|e| format!("redb 3.0.0 get() error in {:?}: {e:?}", $name))? {
+                Some(g) if $vf(g.value()) == $vf(v.value()) => {}
+                Some(_) => return Err(format!("redb 3.0.0: get({:?}) in {:?} returns another value than iteration", $kf(k.value()), $name)),
+                None => return Err(format!("redb 3.0.0: get({:?}) in {:?} finds nothing although iteration yields the key (routing keys written by this tree misroute the old release)", $kf(k.value()), $name)),
+            }
             out.push(($kf(k.value()), $vf(v.value())));
         }
         let l = t.len().map_err(|e| format!("{e:?}"))?;
@@ -98,6 +105,14 @@ macro_rules! read3_multi {
             let mut vs = vec![];
             for v in vals {
                 vs.push($vf(v.map_err(|e| format!("{e:?}"))?.value()));
+            }
+            // point lookup through the branch pages (see read3_normal)
+            let mut via_get = vec![];
+            for v in t.get(k.value()).map_err(|e| format!("redb 3.0.0 get() error in {:?}: {e:?}", $name))? {
+                via_get.push($vf(v.map_err(|e| format!("{e:?}"))?.value()));
+            }
+            if via_get != vs {
+                return Err(format!("redb 3.0.0: get({:?}) in multimap {:?} yields {} values, iteration {} (routing keys written by this tree misroute the old release)", $kf(k.value()), $name, via_get.len(), vs.len()));
             }
             out.push(($kf(k.value()), vs));
         }
